@@ -389,3 +389,37 @@ def gen_store(rng, tier, mode):
                 s.check(True)
                 cases.append(Case("filecut-%d_%d-k%d-%d" % (geom[0], geom[1], k, re), s.ops, True, "boundary"))
     return cases
+
+
+def gen_store_hardstate(rng, tier):
+    """C05 at the level raft sees it: term and vote saved through `FileStore::save_hard_state` and read back through
+    `get_initial_state` - with an empty log, with entries, after the log was cut back to nothing, across reopens"""
+    cases = []
+    # directed: a vote with nothing in the log (a fresh node is asked for its vote before it holds any entry)
+    cases.append(Case("hs-empty-log", ["open", "init", "hs 3 2", "init", "reopen", "init", "hs 3 1", "init", "hs 5 0", "reopen", "init",
+                                       "a 1 5 9 7", "init", "reopen", "init"], True, "boundary"))
+    cases.append(Case("hs-log-cut-to-nothing", ["open", "a 1 1 9 3", "a 2 1 9 4", "hs 2 3", "init", "del 1", "init", "reopen", "init", "hs 4 1",
+                                                "init", "a 1 4 9 5", "init", "reopen", "init"], True, "boundary"))
+    for i in range(300 if tier == "thorough" else 30):
+        ops = ["open"]
+        nxt, term = 1, 1
+        for _ in range(rng.randrange(4, 14)):
+            r = rng.random()
+            if r < 0.3:
+                term += rng.choice([0, 0, 1, 2])
+                ops.append("hs %d %d" % (term, rng.choice([0, 1, 2, 3])))
+            elif r < 0.5:
+                n = rng.choice([1, 1, 2, 5])
+                ops.append("b %d %d %d 9 %d" % (nxt, term, n, rng.randrange(1000)))
+                nxt += n
+            elif r < 0.6 and nxt > 1:
+                k = rng.randrange(1, nxt)
+                ops.append("del %d" % k)
+                nxt = k
+            elif r < 0.75:
+                ops.append("reopen")
+            else:
+                ops.append("init")
+        ops += ["init", "reopen", "init"]
+        cases.append(Case("hs-%d" % i, ops, True, "random"))
+    return cases
